@@ -140,6 +140,12 @@ pub struct Plan {
     /// nothing left (immediate end of file).
     #[serde(default)]
     pub one_shot: bool,
+    /// (offset, ms): the read that starts at or beyond `offset` takes `ms` milliseconds of
+    /// SIMULATED time (a stalled network mount, a slow pipe, a descheduled process): the thread's
+    /// monotonic clock and its wall clock advance, no byte is lost and no error is reported.
+    /// Sorted by offset.
+    #[serde(default)]
+    pub stalls: Vec<(usize, u64)>,
 }
 
 impl Plan {
@@ -152,6 +158,7 @@ impl Plan {
             + self.open_fail.is_some() as usize
             + self.replace_at.is_some() as usize
             + self.replace_before_open.is_some() as usize
+            + self.stalls.len()
     }
 }
 
@@ -792,6 +799,9 @@ pub fn generate(seed: u64, run_index: u64, infos: &[PoolInfo]) -> Scenario {
         _ => 0,
     };
     let clock = clock_reading(&mut rng);
+    if stratum != Stratum::Quiet {
+        add_stalls(&mut ops, seed);
+    }
     Scenario {
         seed,
         stat_lies,
@@ -810,6 +820,46 @@ pub fn generate(seed: u64, run_index: u64, infos: &[PoolInfo]) -> Scenario {
         n_clients,
         initial: imgs[0],
         ops,
+    }
+}
+
+/// Simulated durations of a stall, in milliseconds: around a second (where a budget of "one
+/// second" flips), around a minute, an hour, a day, thirty days.
+pub const STALL_MS: [u64; 14] = [
+    1, 50, 999, 1_000, 1_001, 1_500, 5_000, 30_000, 60_001, 600_000, 3_600_000, 86_400_000, 86_401_000,
+    2_592_000_000,
+];
+
+/// Decorates one load in six with one or two stalls. A pass of its own, with a generator of its
+/// own, AFTER the scenario has been drawn: the scenarios themselves are those of the same seed
+/// before stalls existed (elapsed time is invisible to the unchanged tree, so nothing else moves).
+fn add_stalls(ops: &mut [Op], seed: u64) {
+    let mut rng = Rng::new(seed ^ 0x57A1_1ED0_C10C_0001);
+    let mut decorate = |plan: &mut Plan, rng: &mut Rng| {
+        if !rng.chance(1, 6) {
+            return;
+        }
+        let n = if rng.chance(1, 4) { 2 } else { 1 };
+        for _ in 0..n {
+            let off = match rng.below(6) {
+                0 => 0,                  // the very first read (the open itself was slow)
+                1 => usize::MAX / 2,     // the read that reports end of file
+                _ => rng.urange(1, 11_000),
+            };
+            plan.stalls.push((off, *rng.pick(&STALL_MS)));
+        }
+        plan.stalls.sort_unstable();
+    };
+    for op in ops.iter_mut() {
+        match op {
+            Op::Load { plan, must_succeed: false, .. } => decorate(plan, &mut rng),
+            Op::Concurrent { threads, .. } => {
+                for t in threads.iter_mut() {
+                    decorate(&mut t.plan, &mut rng);
+                }
+            }
+            _ => {}
+        }
     }
 }
 
